@@ -102,10 +102,11 @@ CAP = 10240
 
 
 def sc_cancel_on_full(cancelable):
-    # the queue is full when cancel() and the root's drop are issued; both signals are parked and must
-    # arrive in order once the queue has drained; span sets submitted meanwhile may be missing
+    # a child finishes while there is room (its span set is in the collector); then the queue fills;
+    # cancel() and the root's drop are issued on the full queue: both signals are parked and must arrive,
+    # in order, once the queue has drained; span sets submitted during the episode may be missing
     p = ["0 spawn", "1 spawn", "0 setReporter %d" % cancelable, "0 touch", "1 touch",
-         "0 root r 72 1 0 1", "0 spam %d" % (CAP - 1), "0 child1 c 63 r", "0 drop c", "0 cancel r", "0 drop r",
+         "0 root r 72 1 0 1", "0 child1 b 62 r", "0 drop b", "0 cycle", "0 spam %d" % CAP, "0 child1 c 63 r", "0 drop c", "0 cancel r", "0 drop r",
          "0 cycle", "0 root z 7a 2 0 1", "0 child1 y 79 z", "0 drop y", "0 drop z", "0 cycle", "0 cycle", "0 stats"]
     return p
 
@@ -122,6 +123,23 @@ def sc_start_lost():
             "0 cycle", "0 cycle", "0 root z 7a 2 0 1", "0 child1 y 79 z", "0 scope y", "0 localEnter 6c", "0 close", "0 close", "0 drop y", "0 drop z", "0 cycle", "0 stats"]
 
 
+def sc_big_trace(cancelable, n=5000):
+    """one thread finishes n children of the root and exits / hands back; the root is then finished on another
+    thread; one cycle: every child must be in that cycle's report (no per-cycle cap on a queue's backlog)"""
+    p = ["0 spawn", "1 spawn", "0 setReporter %d" % cancelable, "0 root r 72 1 0 1"]
+    for i in range(n):
+        p += ["1 child1 c%d 63 r" % i, "1 drop c%d" % i]
+    p += ["0 drop r", "0 cycle", "0 cycle", "0 stats"]
+    return p
+
+
+def sc_recovery(cancelable):
+    """overload episode (finish signal parked on a full queue), one cycle, then ordinary traffic: everything
+    submitted after the queue has drained must be delivered"""
+    return ["0 spawn", "0 setReporter %d" % cancelable, "0 touch", "0 root r 72 1 0 1", "0 spam %d" % CAP, "0 drop r", "0 cycle",
+            "0 root z 7a 2 0 1", "0 child1 y 79 z", "0 scope y", "0 localEnter 6c", "0 close", "0 close", "0 drop y", "0 drop z", "0 cycle", "0 cycle", "0 stats"]
+
+
 def names_in(tr):
     return [r["name"] for _, r in tr.delivered()]
 
@@ -133,11 +151,13 @@ def check_scenarios(impl_by_tag):
         f = O.o_no_panic(None, tr)
         n = names_in(tr)
         if tag.startswith("cancel-on-full-1"):
-            if "r" in n or "c" in n:
-                f.append("records %s of the cancelled trace were delivered although cancel() was called (full queue)" % [x for x in n if x in "rc"])
+            if "r" in n or "c" in n or "b" in n:
+                f.append("records %s of the cancelled trace were delivered although cancel() was called (full queue)" % [x for x in n if x in "rcb"])
             if sorted(x for x in n if x in "zy") != ["y", "z"]:
                 f.append("the trace started after the queue had drained was not delivered completely: %s" % n)
         if tag.startswith("cancel-on-full-0"):
+            if n.count("b") != 1:
+                f.append("default configuration: the child finished before the episode must be delivered exactly once: %s" % n)
             if sorted(x for x in n if x in "zy") != ["y", "z"]:
                 f.append("default configuration: trace started after the episode not complete: %s" % n)
         if tag.startswith("finish-on-full"):
@@ -145,6 +165,15 @@ def check_scenarios(impl_by_tag):
                 f.append("child finished before the episode must be delivered with its trace once the parked commit arrives: %s" % n)
             if n.count("z") != 1:
                 f.append("later trace incomplete: %s" % n)
+        if tag.startswith("big-trace"):
+            first = tr.reports[0][1] if tr.reports else []
+            want = sum(1 for l in lines if " child1 " in l) + 1
+            later = sum(len(rs) for _, rs in tr.reports[1:])
+            if len(first) != want or later:
+                f.append("%d of the %d spans of the trace were delivered in the cycle after the root finished, %d later" % (len(first), want, later))
+        if tag.startswith("recovery"):
+            if sorted(x for x in n if x in ("z", "y", "l")) != ["l", "y", "z"]:
+                f.append("spans submitted after the queue had drained are missing: delivered %s" % n)
         if tag.startswith("start-lost"):
             if sorted(x for x in n if x in ("z", "y", "l")) != ["l", "y", "z"]:
                 f.append("trace started after the queue drained must be complete: %s" % n)
